@@ -167,6 +167,7 @@ Next == AddOk \/ AddErr \/ AddBlock \/ AddResume \/ AddWake \/ WorkerFlush \/ Wo
 Spec == Init /\ [][Next]_vars
 
 Bound == opst <= 3
+BoundDeep == opst <= 5   \* thorough tier (FaultProto_deep.cfg)
 \* a producer waiting inside add_document can always get out: a worker makes room, or the dead writer's
 \* dropped receiver wakes it with an error (the process does not hang)
 NoStuckProducer == blocked => ENABLED (AddResume \/ AddWake \/ WorkerFlush \/ WorkerFail)
